@@ -29,6 +29,10 @@
          answer per op: <u|p|v..>#<list0>|<list1>|<list2>|<list3>|<slice0>|<slice1>|<slice2>
     C <t> <init> <ops>          cross-type (integer <-> decimal text) methods, t = i | l | s
          ops: aI:<int> aS:<str> sI:<i>:<int> sS:<i>:<str> gI:<i> gS:<i> t     answer: u | p | v<int> | v<str> | t<list>
+         … and the views  P (ToString: the whole table)  gV:<i> (GetValue)  gO:<i> (GetObject)
+    N <t> <init> <ops>          numeric cross-type methods, t = i | l | f | d
+         ops: aI:<int> aF:<bits32> aD:<bits64>  sI/sF/sD:<i>:<x>  gI/gF/gD:<i>  gV:<i>  gO:<i>  t
+         answer: u | p | excluded | v<int> | vf<bits> | vd<bits> | V<tag>:<x> | nil | t<list>
     TP <cols>                   table after Put of the columns in order    cols: <keyhex>:<t>=<list>|…
     TW <cols>                   writeTable of that table                                      → hex
     TR <hex>                    readTable into an empty table      → ok <cols> <rest length> | fail
@@ -45,6 +49,7 @@ import Golib.Lists.Linked
 import Golib.Lists.Multi
 import Golib.Lists.Cross
 import Golib.Lists.TableWire
+import Golib.Lists.CrossNum
 import Driver.Common
 
 open Drv Lists
@@ -242,16 +247,111 @@ def initOf {α : Type} (z : α) (s : String) : Option (TL α) :=
     | ["cap", n] => (parseNat n).map (TL.mk' z)
     | _ => none
 
+/-- ops of a C line: a cross-type method of the model, or one of the views P (ToString),
+    gV (GetValue), gO (GetObject) evaluated on the current model state -/
+inductive CView where
+  | toStr | getValue (i : Int) | getObject
+
+def parseView (s : String) : Option CView :=
+  match s.splitOn ":" with
+  | ["P"] => some .toStr
+  | ["gV", i] => (parseInt i).map .getValue
+  | ["gO", _] => some .getObject
+  | _ => none
+
+def runCI : List String → TL Int → List String → Option (List String)
+  | [], _, acc => some acc.reverse
+  | o :: os, l, acc =>
+    match parseView o with
+    | some .toStr => runCI os l (("v" ++ showStr (CrossNum.toStringInts l)) :: acc)
+    | some (.getValue i) => runCI os l ((match TL.get l i with
+        | some v => "Vdecimal:" ++ toString v
+        | none => "p") :: acc)
+    | some .getObject => runCI os l ("nil" :: acc)
+    | none => match parseCI o with
+      | some op => let r := Cross.stepI Growth.go op l; runCI os r.2 (showX r.1 :: acc)
+      | none => none
+
+def runCS : List String → TL Bytes → List String → Option (List String)
+  | [], _, acc => some acc.reverse
+  | o :: os, l, acc =>
+    match parseView o with
+    | some .toStr => runCS os l (("v" ++ showStr (CrossNum.toStringStrs l)) :: acc)
+    | some (.getValue i) => runCS os l ((match TL.get l i with
+        | some v => "Vtext:" ++ showStr v
+        | none => "p") :: acc)
+    | some .getObject => runCS os l ("nil" :: acc)
+    | none => match parseCS o with
+      | some op => let r := Cross.stepS Growth.go op l; runCS os r.2 (showX r.1 :: acc)
+      | none => none
+
 def doC (t init ops : String) : String :=
   let opl := if ops == "-" then [] else ops.splitOn ";"
   if t == "s" then
-    match initOf ([] : Bytes) init, opl.mapM parseCS with
-    | some l, some ops => semi ((Cross.runS Growth.go ops l []).map showX)
-    | _, _ => "bad-op"
+    match initOf ([] : Bytes) init with
+    | some l => match runCS opl l [] with
+      | some outs => semi outs
+      | none => "bad-op"
+    | none => "bad-op"
   else
-    match initOf (0 : Int) init, opl.mapM parseCI with
-    | some l, some ops => semi ((Cross.runI Growth.go ops l []).map showX)
-    | _, _ => "bad-op"
+    match initOf (0 : Int) init with
+    | some l => match runCI opl l [] with
+      | some outs => semi outs
+      | none => "bad-op"
+    | none => "bad-op"
+
+/-! ### numeric cross-type methods -/
+
+open CrossNum in
+def kindOf (t : String) : Kind :=
+  match t with
+  | "f" => .f32 | "d" => .f64 | _ => .int
+
+open CrossNum in
+def showNum : Num → String
+  | .int v => toString v
+  | .f32 b => "f" ++ toString b
+  | .f64 b => "d" ++ toString b
+
+open CrossNum in
+def parseN (s : String) : Option NOp :=
+  match s.splitOn ":" with
+  | ["aI", v] => (parseInt v).map (fun v => .add (.int v))
+  | ["aF", b] => (parseNat b).map (fun b => .add (.f32 b))
+  | ["aD", b] => (parseNat b).map (fun b => .add (.f64 b))
+  | ["sI", i, v] => match parseInt i, parseInt v with
+    | some i, some v => some (.set i (.int v))
+    | _, _ => none
+  | ["sF", i, b] => match parseInt i, parseNat b with
+    | some i, some b => some (.set i (.f32 b))
+    | _, _ => none
+  | ["sD", i, b] => match parseInt i, parseNat b with
+    | some i, some b => some (.set i (.f64 b))
+    | _, _ => none
+  | ["gI", i] => (parseInt i).map (fun i => .get i .int)
+  | ["gF", i] => (parseInt i).map (fun i => .get i .f32)
+  | ["gD", i] => (parseInt i).map (fun i => .get i .f64)
+  | ["gV", i] => (parseInt i).map .getValue
+  | ["gO", i] => (parseInt i).map .getObject
+  | ["t"] => some .toArray
+  | _ => none
+
+open CrossNum in
+def showN : NOut → String
+  | .unit => "u"
+  | .panic => "p"
+  | .excluded => "excluded"
+  | .num x => "v" ++ showNum x
+  | .value tag x => "V" ++ tag ++ ":" ++ showNum x
+  | .nil => "nil"
+  | .nums xs => "t" ++ listOf showNum xs
+
+def doN (t init ops : String) : String :=
+  let opl := if ops == "-" then [] else ops.splitOn ";"
+  let k := kindOf t
+  match initOf k.zero init, opl.mapM parseN with
+  | some l, some ops => semi ((CrossNum.run Growth.go k ops l []).map showN)
+  | _, _ => "bad-op"
 
 /-! ### tables -/
 
@@ -437,6 +537,7 @@ def answer (line : String) : String :=
     match isType t, (if ops == "-" then some [] else (ops.splitOn ";").mapM (parseXOp t)) with
     | true, some ops => semi (runXO t ops Multi.MState.init [])
     | _, _ => "bad-op"
+  | ["N", t, init, ops] => if t == "i" || t == "l" || t == "f" || t == "d" then doN t init ops else "bad-op"
   | ["C", t, init, ops] => if t == "i" || t == "l" || t == "s" then doC t init ops else "bad-op"
   | ["TP", cols] => match parseTable cols with
     | some t => showTable t
